@@ -252,6 +252,17 @@ func c06Family(c *vlib.Ctx) []CfgLit {
 			out = append(out, l)
 		}
 	}
+	// D: single patterns at, and one byte below, several documented length limits at once (64-byte scheme, 253-byte host
+	// with and without the trailing full stop of an absolute name, five-digit port, 63-byte labels), alone and next to
+	// a short pattern
+	for _, scheme := range []string{c01Scheme64, c01Scheme64[:63], "https"} {
+		for _, host := range []string{c01Host253, c01Host253 + ".", c01Host253[:252], "*." + c01Host253[2:], "*." + c01Host253[2:] + ".", "api." + c01L63a + ".example.com", c01L63a + "." + c01L63b + ".io."} {
+			for _, port := range []string{"", ":9", ":65535", ":10000", ":*"} {
+				p := scheme + "://" + host + port
+				out = append(out, CfgLit{Origins: []string{p}, TolInsecure: true, TolPSL: true}, CfgLit{Origins: []string{"https://a.b", p}, Credentialed: true, TolInsecure: true, TolPSL: true, Methods: []string{"PUT"}})
+			}
+		}
+	}
 	return out
 }
 
